@@ -30,6 +30,7 @@ type Goroutine struct {
 	what    string      // description of what it is blocked on
 	timerOnly bool      // blocked only on timers
 	daemon  bool
+	quiescing bool
 	fr      *frame
 	where   string
 	creator int
@@ -63,6 +64,7 @@ type Chan struct {
 	recvq []*recvWaiter
 	timer bool // a timer channel: receive is always possible once (abstract time)
 	fired bool
+	immediate bool // timer with zero delay
 	label string
 }
 
